@@ -12,18 +12,24 @@ package main
 
 import (
 	"fmt"
-	"os"
-	"runtime/debug"
-	"runtime/pprof"
 	"sort"
 
 	"verifh/ev"
 	"verifh/par"
 )
 
-var profiling bool
-
 var batchSizes = []int{1, 2, 3, 1000}
+
+// batchesFor: batch sizes used for a missing-subset s of n objects. 64 and 1000
+// both exceed the largest number of references (20); 1000 makes the decorator
+// allocate a 1000-slot set per call, which dominates CPU time, so the quick
+// tier pairs it with {nothing, one object, everything} missing only.
+func batchesFor(thorough bool, s []int, n int) []int {
+	if thorough || len(s) <= 1 || len(s) == n {
+		return []int{1, 2, 3, 64, 1000}
+	}
+	return []int{1, 2, 3, 64}
+}
 
 // dirCombos: no directory, every single directory (21 shapes x root digest
 // yes/no), every ordered pair over pairShapes x root digest yes/no.
@@ -235,13 +241,13 @@ func containsTree(fx *fixture, s []int) bool {
 }
 
 // mutations of a blob of length n.
-func mutations(n int) []Corrupt {
+func mutations(n int, bits []int) []Corrupt {
 	var out []Corrupt
 	for l := 0; l < n; l++ {
 		out = append(out, Corrupt{Kind: "trunc", Pos: l})
 	}
 	for p := 0; p < n; p++ {
-		for b := 0; b < 8; b++ {
+		for _, b := range bits {
 			out = append(out, Corrupt{Kind: "xor", Pos: p, Val: 1 << b})
 		}
 		out = append(out, Corrupt{Kind: "xor", Pos: p, Val: 0xff})
@@ -252,13 +258,6 @@ func mutations(n int) []Corrupt {
 }
 
 func main() {
-	debug.SetGCPercent(800)
-	if pf := os.Getenv("C13_PROF"); pf != "" {
-		f, _ := os.Create(pf)
-		pprof.StartCPUProfile(f)
-		defer pprof.StopCPUProfile()
-		profiling = true
-	}
 	r := ev.Start("C13")
 	r.Rule("venum: every (ActionResult of the grammar x CAS state/fault x decorator configuration) listed per sub-check is executed against the real decorator; a case is non-trivial when the ActionResult references at least 2 distinct CAS objects in that case (so the decision depends on which of several objects is absent/corrupt and on batching)")
 	r.Assume("referenced set = digests of output files, tree_digest, root_directory_digest, stdout_digest, stderr_digest, and inside each served Tree every FileNode digest and, iff the output directory has a root_directory_digest, every DirectoryNode digest; computed by proto.Unmarshal of the stored bytes")
@@ -300,12 +299,12 @@ func main() {
 				}
 			}
 		}
-		sub := r.NewSub("missing-subsets", "venum", fmt.Sprintf("{0,1,2 output files} x {stdout absent/digest/inline} x {stderr likewise} x {no dir, 42 single dirs (21 Tree shapes x root digest y/n), ordered pairs over %d shapes x root y/n} x {distinct, colliding blob digests} = %d ActionResults; x every subset of the referenced objects missing (2^n for n<=8, else none+singletons+all) x batch sizes {1,2,3,1000} x (when a Tree is in the subset) Get refuses / still serves it; validating CAS buffer", len(pairShapesMain), len(specs)))
+		sub := r.NewSub("missing-subsets", "venum", fmt.Sprintf("{0,1,2 output files} x {stdout absent/digest/inline} x {stderr likewise} x {no dir, 42 single dirs (21 Tree shapes x root digest y/n), ordered pairs over %d shapes x root y/n} x {distinct, colliding blob digests} = %d ActionResults; x every subset of the referenced objects missing (2^n for n<=8, else none+singletons+all) x batch sizes %s x (when a Tree is in the subset) Get refuses / still serves it; validating CAS buffer", len(pairShapesMain), len(specs), ev.Pick(r, "{1,2,3,64} plus 1000 when nothing / one object / everything is missing", "{1,2,3,64,1000}")))
 		done := sub.Timer()
 		d := &driver{r: r, sub: sub, name: "missing-subsets"}
 		d.drive(specs, func(fx *fixture, emit func(Case)) {
 			for _, s := range subsets(len(fx.r0)) {
-				for _, b := range batchSizes {
+				for _, b := range batchesFor(thorough, s, len(fx.r0)) {
 					c := baseCase(fx.spec)
 					c.Missing, c.Batch = s, b
 					emit(c)
@@ -427,12 +426,13 @@ func main() {
 			}
 		}
 		type bm struct{ mode, chunk int }
-		bms := []bm{{modeCASSlice, 0}, {modeCASReader, 1}, {modeCASReader, 0}, {modeRawSlice, 0}, {modeRawReaderAt, 0}}
+		bms := []bm{{modeCASSlice, 0}, {modeCASReader, 1}, {modeRawSlice, 0}, {modeRawReaderAt, 0}}
 		if thorough {
-			bms = append(bms, bm{modeCASReader, 7}, bm{modeCASReader, 33})
+			bms = append(bms, bm{modeCASReader, 0}, bm{modeCASReader, 7}, bm{modeCASReader, 33})
 		}
-		cbatches := ev.Pick(r, []int{1, 1000}, batchSizes)
-		sub := r.NewSub("tree-corruption", "venum", fmt.Sprintf("%d ActionResults (1 file, stdout, each of the 21 Tree shapes x root digest y/n; pairs of directories over shapes %v, distinct/colliding) x each Tree of it x {truncation at EVERY length, EVERY byte x (each of 8 single-bit flips, all bits flipped, +1), one byte appended (2 values)} x %d CAS buffer kinds (validating eager / validating streaming with chunk sizes / non-validating slice / non-validating ReaderAt) x CAS {holds exactly the pristine objects, holds every digest} x batch sizes %v; plus reads of each Tree failing with INTERNAL at EVERY offset (streaming kinds)", len(specs), pairShapesSmall, len(bms), cbatches))
+		cbatches := ev.Pick(r, []int{1, 64}, batchSizes)
+		bits := ev.Pick(r, []int{0, 5, 7}, []int{0, 1, 2, 3, 4, 5, 6, 7})
+		sub := r.NewSub("tree-corruption", "venum", fmt.Sprintf("%d ActionResults (1 file, stdout, each of the 21 Tree shapes x root digest y/n; pairs of directories over shapes %v, distinct/colliding) x each Tree of it x {truncation at EVERY length, EVERY byte x (single-bit flips of bits %v, all bits flipped, +1), one byte appended (2 values)} x %d CAS buffer kinds (validating eager / validating streaming with chunk sizes / non-validating slice / non-validating ReaderAt) x CAS {holds exactly the pristine objects; for non-validating kinds also: holds every digest} x batch sizes %v; plus reads of each Tree failing with INTERNAL at EVERY offset (streaming kinds)", len(specs), pairShapesSmall, bits, len(bms), cbatches))
 		done := sub.Timer()
 		d := &driver{r: r, sub: sub, name: "tree-corruption"}
 		d.drive(specs, func(fx *fixture, emit func(Case)) {
@@ -443,11 +443,14 @@ func main() {
 				}
 				seen[key] = true
 				n := len(fx.trees[key])
-				for _, mu := range mutations(n) {
+				for _, mu := range mutations(n, bits) {
 					mu := mu
 					mu.Dir = dir
 					for _, m := range bms {
 						for _, uni := range []bool{false, true} {
+							if uni && modeValidating(m.mode) {
+								continue // a validating buffer rejects every altered Tree whatever the CAS holds
+							}
 							for _, b := range cbatches {
 								c := baseCase(fx.spec)
 								c.Corrupt, c.Mode, c.Chunk, c.Universal, c.Batch = &mu, m.mode, m.chunk, uni, b
@@ -572,8 +575,6 @@ func main() {
 		done()
 	}
 
-	if profiling {
-		pprof.StopCPUProfile()
-	}
+	stopProf()
 	r.Finish()
 }
